@@ -20,12 +20,21 @@ META = dict(
                 'the model: a SCGI header block whose last string is not NUL-terminated is a protocol violation before the strlen scan, an empty '
                 'FastCGI GET_VALUES body returns before front() is taken and is answered by an empty GET_VALUES_RESULT); FastCGI records of '
                 'another version close the connection, unknown record types are skipped, unknown roles are answered and the connection goes on; '
-                'for streams of at most 16384 bytes the outcome of an HTTP connection is independent of the segmentation into reads. '
+                'for streams of at most 16384 bytes the outcome of an HTTP connection is independent of the segmentation into reads; '
+                'the open-addressing table behind connection::env_ (private/string_map.h, own model SMapDefs.v: linear probing, growth, rehash over the '
+                'chain, clear) keeps its load factor at most 1/2 for every sequence of add/clear, so add never loops, get of any name - present or '
+                'absent - ends within data_.size() probes, get answers exactly the first entry of that name in insertion order into the current '
+                'table (every growth reverses that order), a walk lists every entry once, and every key/value string of the table lies in a live '
+                'allocation of the string_pool made since the last reset; growth test, sizes, probe start/step and the hash are the expressions '
+                'of the current source (cxx2v Link lemmas). '
                 'The model is tied to the code by running the extracted model and the real service (sanitizer build) on the same streams and '
                 'comparing reply classes and application callback counters; an independent oracle checks survival, absence of sanitizer '
                 'reports, probe answers, at-most-once delivery and the repaired behaviour (unterminated SCGI block refused, content-less '
                 'GET_VALUES answered) on the implementation output alone.'),
-    level_note=('Trusted: Coq kernel; hand transcription of the readers (tied by correspondence; separator/token characters by cxx2v); '
+    level_note=('Trusted: Coq kernel; hand transcription of the readers (tied by correspondence; separator/token characters by cxx2v); hand '
+                'transcription of the loops of string_map (tied by a direct harness on the real header, slot positions and chain order compared, '
+                'and by a statement-structure match of add/insert/get/clear/operator==/calc_hash in checks/C02.py; the integer leafs by cxx2v); '
+                'the string_pool model is the one of C01 (its correspondence is checked there); '
                 'ExtrOcamlBasic extraction; harness/C02_service.cpp (accept/close interposition, echo and upload applications); kernel socket '
                 'behaviour; ASan/UBSan as the detector of memory-unsafe operations in the compiled code (explored inputs only). Not modelled: '
                 'multipart parser (C12), response formatting (C03), allocation failure, timeouts/watchdog, socket errors (a peer reset racing '
@@ -33,8 +42,109 @@ META = dict(
                 'timing dependent, detected with high probability, not with certainty).'),
 )
 
+SMAP_LEAFS = ['c02_grow', 'c02_newsize', 'c02_ins_start', 'c02_ins_next', 'c02_get_start', 'c02_get_next', 'c02_update_state']
+SMAP_TU = os.path.join(vlib.WORK, 'C02', 'C02_smap_leafs.cpp')
+SMAP_TU_PROBLEMS = []
+
+
+def smap_leaf_tu():
+    """private/string_map.h (class string_map, the `#elif 1` variant that is compiled) is pointer / std::vector code with loops, outside
+    the subset of tools/cxx2v.py.  Its integer leafs - the growth test of add(), the size of the new table, the initial sizes of the
+    constructor and of clear(), the start and step expressions of the two probe loops - and string_hash::update_state /
+    initial_state of private/hash_map.h are lifted textually from the CURRENT source into a tiny TU (regenerated on every run) and
+    translated by cxx2v; coq/C02/Link.v proves them equal to the leafs of the model (coq/C02/SMapDefs.v).  The statements AROUND the
+    lifted expressions (the loops, the rehash walk over the chain, operator== = hash and strcmp, calc_hash = fold of update_state,
+    the null-key test) are matched against the statement structure the model was written for; a member function that no longer
+    has that structure is left out of the TU, so that the translator reports a broken tie."""
+    os.makedirs(os.path.dirname(SMAP_TU), exist_ok=True)
+    del SMAP_TU_PROBLEMS[:]
+    try:
+        src = open(os.path.join(vlib.REPO, 'private', 'string_map.h')).read()
+        hsrc = open(os.path.join(vlib.REPO, 'private', 'hash_map.h')).read()
+    except OSError as e:
+        src = hsrc = ''
+        SMAP_TU_PROBLEMS.append(str(e))
+
+    def norm(t):
+        t = re.sub(r'//[^\n]*', '', t)
+        return ' '.join(re.sub(r'/\*.*?\*/', '', t, flags=re.S).split())
+    m = re.search(r'#elif 1\b(.*?)#else', src, re.S)
+    active = norm(m.group(1)) if m else ''
+    head = norm(src.split('#if 0')[0]) if '#if 0' in src else ''
+    E = r'([^;{}]*?)'
+    pats = dict(
+        ctor=r'string_map\(\) ?\{ ?data_\.resize\((\d+)\); ?total_ ?= ?0; ?first_ ?= ?-1; ?\}',
+        add=(r'void add\(char const \*key, ?char const \*value\) ?\{ ?entry new_entry\(key, ?value\); ?if ?\(' + E + r'\) ?\{ ?int new_first ?= ?-1; ?'
+             r'std::vector<entry> new_data\(' + E + r'\); ?for ?\(iterator p ?= ?begin\(\), ?e ?= ?end\(\); ?p ?!= ?e; ?\+\+p\) ?\{ ?insert\(new_data, ?\*p, ?new_first\); ?\} ?'
+             r'first_ ?= ?new_first; ?data_\.swap\(new_data\); ?\} ?insert\(data_, ?new_entry, ?first_\); ?total_\+\+; ?\}'),
+        insert=(r'static void insert\(std::vector<entry> ?&d, ?entry const ?&e, ?int ?&first\) ?\{ ?int pos ?= ?' + E + r'; ?while ?\(d\[pos\]\.key\) ?pos ?= ?' + E +
+                r'; ?d\[pos\] ?= ?e; ?d\[pos\]\.next_index ?= ?first; ?first ?= ?pos; ?\}'),
+        get=(r'char const \*get\(char const \*ckey\) ?\{ ?entry e\(ckey\); ?int pos ?= ?' + E + r'; ?while ?\(data_\[pos\]\.key ?&& ?!\(data_\[pos\] ?== ?e\)\) ?pos ?= ?' + E +
+             r'; ?if ?\(data_\[pos\]\.key ?== ?0\) ?return 0; ?return data_\[pos\]\.value; ?\}'),
+        clear=r'void clear\(\) ?\{ ?data_\.clear\(\); ?data_\.resize\((\d+)\); ?total_ ?= ?0; ?first_ ?= ?-1; ?\}',
+        begin_end=r'iterator begin\(\) ?\{ ?return iterator\(data_, ?first_\); ?\} ?iterator end\(\) ?\{ ?return iterator\(data_, ?-1\); ?\}',
+        increment=r'void increment\(\) ?\{ ?if ?\(current_ ?!= ?-1\) ?\{ ?current_ ?= ?\(\*d\)\[current_\]\.next_index; ?\} ?\}',
+        get_safe=r'char const \*get_safe\(char const \*key\) ?\{ ?char const \*value ?= ?get\(key\); ?if ?\(value\) ?return value; ?return ""; ?\}',
+    )
+    hpats = dict(
+        entry_ctor=r'entry\(char const \*k, ?char const \*v ?= ?""\) ?: ?key\(k\), ?value\(v\), ?hash\(calc_hash\(k\)\), ?next_index\(0\) ?\{ ?\}',
+        entry_eq=r'bool operator==\(entry const ?&other\) const ?\{ ?return hash ?== ?other\.hash ?&& ?strcmp\(key, ?other\.key\) ?== ?0; ?\}',
+        calc_hash=(r'static uint32_t calc_hash\(char const \*key\) ?\{ ?uint32_t state ?= ?cppcms::impl::string_hash::initial_state; ?char const \*s ?= ?key; ?'
+                   r'while ?\(\*s\) ?\{ ?state ?= ?cppcms::impl::string_hash::update_state\(state, ?\*s\+\+\); ?\} ?return state; ?\}'),
+    )
+    got = {}
+    for n, pat in pats.items():
+        got[n] = re.search(pat, active)
+    for n, pat in hpats.items():
+        got[n] = re.search(pat, head)
+    for n in got:
+        if not got[n]:
+            SMAP_TU_PROBLEMS.append('private/string_map.h: `%s` no longer has the statement structure the model (coq/C02/SMapDefs.v) was written for' % n)
+
+    def expr(t, allowed):
+        t = t.replace('data_.size()', 'dsize').replace('d.size()', 'dsize').replace('total_', 'total').replace('e.hash', 'ehash')
+        if re.search(r'[^\w\s<>=!+\-*/%()&|^~]', t) or any(w not in allowed and not w.isdigit() for w in re.findall(r'[A-Za-z_]\w*|\d+', t)):
+            SMAP_TU_PROBLEMS.append('private/string_map.h: expression outside the translatable subset: ' + t)
+            return None
+        return t
+    txt = ('// generated by checks/C02.py from private/string_map.h (string_map, active variant) and private/hash_map.h (string_hash) -- do not edit\n'
+           '#include <stdint.h>\n#include <stddef.h>\n')
+    structure_ok = all(got[n] for n in ('begin_end', 'increment', 'get_safe', 'entry_ctor', 'entry_eq', 'calc_hash'))
+    if got['ctor'] and got['clear']:
+        txt += 'static const size_t c02_init_ctor = %s;\nstatic const size_t c02_init_clear = %s;\n' % (got['ctor'].group(1), got['clear'].group(1))
+    if got['add'] and structure_ok:
+        c, n = expr(got['add'].group(1), ('total', 'dsize')), expr(got['add'].group(2), ('dsize',))
+        if c is not None:
+            txt += 'bool c02_grow(size_t total,size_t dsize) { return %s; }\n' % c
+        if n is not None:
+            txt += 'size_t c02_newsize(size_t dsize) { return %s; }\n' % n
+    for fn, key in (('ins', 'insert'), ('get', 'get')):
+        if got[key] and structure_ok:
+            a, b = expr(got[key].group(1), ('ehash', 'dsize')), expr(got[key].group(2), ('pos', 'dsize'))
+            if a is not None:
+                txt += 'int c02_%s_start(uint32_t ehash,size_t dsize) { int pos = %s; return pos; }\n' % (fn, a)
+            if b is not None:
+                txt += 'int c02_%s_next(int pos,size_t dsize) { pos = %s; return pos; }\n' % (fn, b)
+    mh = re.search(r'typedef\s+uint32_t\s+state_type\s*;.*?static\s+state_type\s+update_state\s*\(\s*state_type\s+value\s*,\s*char\s+c\s*\)\s*\{(.*?)\n\t\}', hsrc, re.S)
+    m0 = re.search(r'static\s+const\s+state_type\s+initial_state\s*=\s*(\w+)\s*;', hsrc)
+    if m0:
+        txt += 'static const uint32_t c02_initial_state = %s;\n' % m0.group(1)
+    else:
+        SMAP_TU_PROBLEMS.append('private/hash_map.h: string_hash::initial_state not found')
+    if mh:
+        txt += 'uint32_t c02_update_state(uint32_t value,char c)\n{' + mh.group(1).replace('state_type', 'uint32_t') + '\n}\n'
+    else:
+        SMAP_TU_PROBLEMS.append('private/hash_map.h: string_hash::update_state not found in the expected shape')
+    vlib.write_if_changed(SMAP_TU, txt)
+    return SMAP_TU
+
+
 GEN = {
     'Gen_c02proto': dict(src='private/http_protocol.h', functions=[('separator', 'g_c02_separator'), ('ascii_to_lower', 'g_c02_lower')]),
+    # integer leafs of string_map (growth test, sizes, probe start / step) and string_hash::update_state, see smap_leaf_tu()
+    'Gen_c02smap': dict(src=smap_leaf_tu(), incs=[], consts=[('c02_init_ctor', 'g_c02_init_ctor'), ('c02_init_clear', 'g_c02_init_clear'),
+                                                             ('c02_initial_state', 'g_c02_initial_state')],
+                        functions=[(n, 'g_' + n) for n in SMAP_LEAFS]),
 }
 
 # ------------------------------------------------------------------------------------------- encoders
@@ -166,11 +276,11 @@ def replies_fcgi(b):
 def parse_out(case, out):
     """harness line -> dict(replies=[(class, echo dict)], timeout, closed, calls(list of 7), probes=[bytes], bad)"""
     proto = case.split()[0]
-    res = dict(replies=[], timeout=False, closed=None, calls=None, probes=[], bad=[])
+    res = dict(replies=[], timeout=False, closed=None, calls=None, probes=[], bad=[], stalled=False, many=[])
     data = b''
     for t in out.split():
         k, _, v = t.partition('=')
-        if k in ('r', 'p', 'probe'):
+        if k in ('r', 'p', 'probe') and not (k == 'probe' and v == '-'):
             pp = proto
             if k == 'p':
                 pp, _, v = v.partition(':')
@@ -187,6 +297,16 @@ def parse_out(case, out):
                 res['probes'].append((pp, b, to))
         elif k == 'closed':
             res['closed'] = v == '1'
+        elif k == 'm':
+            pp, _, nums = v.partition(':')
+            try:
+                res['many'].append((pp,) + tuple(int(x) for x in nums.split(',')))
+            except ValueError:
+                res['bad'].append(t[:40])
+        elif k == 'stalled':
+            res['stalled'] = True
+        elif k == 'restart' or (k == 'probe' and v == '-'):
+            pass
         elif k == 'calls':
             res['calls'] = [int(x) for x in v.split(',')]
         else:
@@ -225,6 +345,8 @@ def canon_impl(case, out):
     items = [k for k, _ in r['replies']]
     if r['timeout']:
         items.append('TIMEOUT')
+    if r['stalled']:
+        items.append('STALLED')
     if r['bad']:
         items.append('BADTOKEN')
     if has_reset(case):
@@ -295,6 +417,56 @@ def case_bytes(case):
     return b''.join(unhx(t[2:]) for t in case.split() if t[:2] in ('S:', 's:'))
 
 
+def env_spec(pairs, lookups, anyval=()):
+    """V: annotation of a well-formed request: the CGI variables it must produce (name -> values sent for it, in order; '*' = any value)
+    and the names its echo looks up one by one (HTTP_X_ENV = n1;n2;...)"""
+    d = {}
+    for k, v in pairs:
+        d.setdefault(k, []).append(v)
+    return 'V:' + ','.join(hx(k) + '=' + ('*' if k in anyval else '|'.join(hx(v) for v in vs)) for k, vs in d.items()) + '/' + ','.join(hx(n) for n in lookups)
+
+
+def env_oracle(spec, replies):
+    """the request of this case is well-formed and names its CGI variables in the annotation: it must be answered 200 by the echo
+    application and the echoed environment (walk of connection::env_ and single look-ups, present and absent names) must be what was sent:
+    exactly the names sent, a name sent once with exactly its value, a name sent several times with one of its values, an absent name empty"""
+    exp_s, _, look_s = spec.partition('/')
+    exp = {}
+    for it in exp_s.split(','):
+        k, _, v = it.partition('=')
+        exp[unhx(k)] = None if v == '*' else [unhx(x) for x in v.split('|')]
+    oks = [(k, d) for k, d in replies if k in ('OK:s', 'OK:a')]
+    if len(oks) != 1 or len(replies) != 1:
+        return ('env-request-not-served', 'a well-formed request with %d CGI variables was not answered by exactly one 200 reply of the echo application: %s'
+                % (len(exp), [k for k, _ in replies]))
+    d = oks[0][1]
+    if b'E' not in d or b'G' not in d:
+        return ('env-dump-missing', 'echo reply without environment dump although HTTP_X_ENV was sent (get() of a present name failed?): keys %s' % sorted(d))
+    got = {}
+    for it in d[b'E'].split(b','):
+        if it:
+            k, _, v = it.partition(b':')
+            got[unhx(k.decode())] = unhx(v.decode())
+    if set(got) != set(exp):
+        return ('env-names-differ', 'the walk begin()..end() of connection::env_ does not list exactly the variables of the request: missing %s, unexpected %s'
+                % (sorted(set(exp) - set(got))[:5], sorted(set(got) - set(exp))[:5]))
+    for k, vs in exp.items():
+        if vs is not None and got[k] not in vs:
+            return ('env-value-differs', 'variable %r listed with value %r, sent %r' % (k, got[k][:60], [v[:60] for v in vs]))
+    lk = {}
+    for it in d[b'G'].split(b','):
+        if it:
+            k, _, v = it.partition(b':')
+            lk[unhx(k.decode())] = unhx(v.decode())
+    for n in [unhx(x) for x in look_s.split(',') if x]:
+        if n not in lk:
+            return ('env-lookup-missing', 'look-up of %r not reported' % n)
+        want = exp.get(n, [b''])
+        if want is not None and lk[n] not in want:
+            return ('env-lookup-differs', 'getenv(%r) = %r, expected %s' % (n, lk[n][:60], 'one of %r' % [v[:60] for v in want] if n in exp else 'the empty string (name not sent)'))
+    return None
+
+
 # ------------------------------------------------------------------------------------------- oracle (implementation only)
 def oracle(case, out):
     toks = case.split()
@@ -316,9 +488,15 @@ def oracle(case, out):
     if r['bad'] or r['calls'] is None or len(r['calls']) != 8:
         return ('harness-output', 'unparseable harness output: ' + out[:200])
     sync, asy, setup, main, err, end, threw, nbytes = r['calls']
+    if r['stalled']:
+        return ('event-loop-stalled', 'the event loop did not run a posted marker within 8 s after this connection: the loop thread is stuck, no connection '
+                'is answered any more (replies so far: %s%s)' % ([k for k, _ in r['replies']], ', the connection itself timed out' if r['timeout'] else ''))
     for pp, b, to in r['probes']:
         if not probe_ok(pp, b, to):
             return ('probe-not-answered-' + pp, 'a well-formed probe request on another connection was not answered correctly: %r' % b[:120])
+    for m in r['many']:
+        if len(m) != 4 or m[2] != m[1] or m[3] != 0:
+            return ('simultaneous-connections-not-answered', '%d well-formed %s requests on connections open at the same time: %d answered correctly, %d timed out' % (m[1], m[0], m[2], m[3]) if len(m) == 4 else 'bad m= token')
     if not r['probes']:
         return ('probe-missing', 'no probe result')
     if r['timeout']:
@@ -353,6 +531,14 @@ def oracle(case, out):
         for k, d in r['replies']:
             if k == 'OK:u' and setup == 1 and main == 1 and handled == 1 and int(d[b'CL']) != nbytes:
                 return ('upload-bytes', 'filter saw %d content bytes for declared length %s' % (nbytes, d[b'CL']))
+    ev = [t for t in toks if t.startswith('V:')]
+    if ev and not has_reset(case):
+        if len(r['replies']) != len(ev):
+            return ('env-request-not-served', '%d well-formed request(s) on one connection (kept alive), %d replies: %s' % (len(ev), len(r['replies']), classes))
+        for v, rep in zip(ev, r['replies']):
+            bad = env_oracle(v[2:], [rep])
+            if bad:
+                return bad
     if nreq is not None and handled > nreq:
         return ('handler-more-than-once-' + proto, '%d handler calls for %d request(s) on the connection' % (handled, nreq))
     if err > 1 or err > setup:
@@ -810,6 +996,29 @@ def gen_interleaved(ctx, cases):
         cases.append('%s %s P:%s %s P H E X:1' % (proto, S(d[:off]), other, S(d[off:]) if d[off:] else ''))
 
 
+def gen_many(ctx, cases):
+    """requests on OTHER connections, many at the same time (the event loop polls up to 128 events per round and keeps per-descriptor
+    state in a map that grows with the highest descriptor): while a malformed / incomplete connection is half-way, k well-formed
+    requests are sent on k connections opened together, k on both sides of 128 and 256; every one must be answered"""
+    rng = ctx.rng
+    rq = http_req(b'POST', b'/up', b'HTTP/1.0', [(b'Content-Length', b'50')], b'part')
+    sq = scgi_enc(scgi_items(b'/up', b'20'), b'abc')
+    fq = freq(b'/up', b'10', b'0123456789')
+    half = {'http': rq, 'scgi': sq, 'fcgi': fq[:len(fq) - 12]}
+    ks = [1, 2, 63, 64, 65, 127, 128, 129, 130, 200, 255, 256, 257, 300]
+    for proto in ('http', 'scgi', 'fcgi'):
+        for k in ks:
+            other = rng.choice(['http', 'scgi', 'fcgi'])
+            cases.append('%s %s M:%s:%d H E X:1' % (proto, S(half[proto]), other, k))
+        cases.append('%s %s M:http:100 M:scgi:100 M:fcgi:100 H E X:1' % (proto, S(half[proto])))
+    for _ in range(ctx.scale(12, 120)):
+        proto = rng.choice(['http', 'scgi', 'fcgi'])
+        d = mutate(rng, half[proto])
+        off = rng.randrange(1, len(d)) if len(d) > 1 else 1
+        cases.append('%s %s M:%s:%d %s M:%s:%d H E X:1' % (proto, S(d[:off]), rng.choice(['http', 'scgi', 'fcgi']), rng.choice(ks + [rng.randint(1, 400)]),
+                                                        S(d[off:]) if d[off:] else '', rng.choice(['http', 'scgi', 'fcgi']), rng.randint(1, 140)))
+
+
 def gen_resegmented(ctx, cases):
     """all segmentations: the same byte streams cut into 2-5 separately delivered pieces (the server consumes each piece before
     the next is sent, so every cut is a read boundary: SCGI 16-byte first read / header block / content, FastCGI
@@ -856,6 +1065,455 @@ def gen_resegmented(ctx, cases):
     cases += out
 
 
+# ------------------------------------------------------------------------------------------- connection::env_ (string_map) boundaries
+ENV_STD_HTTP = [b'SERVER_SOFTWARE', b'SERVER_NAME', b'SERVER_PORT', b'GATEWAY_INTERFACE', b'REMOTE_HOST', b'REMOTE_ADDR']
+
+
+def filler_names(k, with_partner):
+    """k names of CGI variables HTTP_X_<tag><i>.  The PJW hash of ...AQ<i> and ...BA<i> is the same 32-bit value (16*'A'+'Q' = 16*'B'+'A'), so
+    partners land in one probe chain and are told apart by the key comparison only; without partner the BA name is an absent name
+    whose hash is present in the table."""
+    out = []
+    for j in range(k):
+        if with_partner and j % 2 == 1:
+            out.append(b'HTTP_X_BA%d' % (j // 2))
+        else:
+            out.append(b'HTTP_X_AQ%d' % (j // 2 if with_partner else j))
+    return out
+
+
+def env_request(proto, n, script, dups, rng, partner=True, keep=False):
+    """a well-formed request that makes exactly n add() calls on connection::env_ (n counts duplicates), or None if this front end
+    cannot produce that count; returns (bytes, V: annotation)"""
+    if proto == 'http':
+        # reset_all: SERVER_SOFTWARE SERVER_NAME SERVER_PORT GATEWAY_INTERFACE; request line: SERVER_PROTOCOL; one per header line;
+        # process_request: REQUEST_METHOD REMOTE_HOST REMOTE_ADDR [QUERY_STRING] SCRIPT_NAME PATH_INFO
+        query = rng.random() < 0.5
+        h = n - 10 - (1 if query else 0)
+        if h < 1:
+            query = False
+            h = n - 10
+        if h < 1:
+            return None
+        fixed = [(k, b'') for k in ENV_STD_HTTP] + [(b'SERVER_PROTOCOL', b'HTTP/1.0'), (b'REQUEST_METHOD', b'GET'), (b'SCRIPT_NAME', script),
+                                                      (b'PATH_INFO', b'/e')] + ([(b'QUERY_STRING', b'q=1')] if query else [])
+        nf = h - 1 - (1 if keep else 0)
+        if nf < 0:
+            return None
+    else:
+        fixed = [(b'CONTENT_LENGTH', b'0'), (b'REQUEST_METHOD', b'GET'), (b'SCRIPT_NAME', script), (b'PATH_INFO', b'/e')]
+        if proto == 'scgi':
+            fixed.insert(1, (b'SCGI', b'1'))
+        keep = max(0, min(len(fixed), n - 1))
+        # SCRIPT_NAME first: with very few variables the request is still routed
+        fixed = [fixed[-2]] + [x for i, x in enumerate(fixed) if i != len(fixed) - 2][:max(0, keep - 1)] if n >= 2 else []
+        nf = n - 1 - len(fixed)
+        if n < 2 or nf < 0:
+            return None
+    names = filler_names(nf, partner)
+    fill = [(nm, b'v%d' % i) for i, nm in enumerate(names)]
+    if dups and nf >= 2:
+        # some of the fillers repeat an earlier name with another value (the count of add() calls stays n)
+        for i in rng.sample(range(1, nf), min(nf - 1, rng.randint(1, 4))):
+            fill[i] = (fill[rng.randrange(0, i)][0], b'd%d' % i)
+    present = [k for k, _ in fill]
+    looks = []
+    if present:
+        looks += [rng.choice(present) for _ in range(3)] + [present[0], present[-1]]
+    looks += [b'HTTP_X_BA%d' % rng.randrange(0, 200), b'HTTP_X_AQ%d' % rng.randrange(0, 200), b'HTTP_X_NOT_SENT', b'CONTENT_TYPE', b'HTTP_COOKIE', b'SCRIPT_NAME', b'X']
+    looks = list(dict.fromkeys(looks))
+    xenv = (b'HTTP_X_ENV', b';'.join(looks))
+    pos = rng.randrange(0, len(fill) + 1)
+    vars_ = fill[:pos] + [xenv] + fill[pos:]
+    if proto == 'http' and keep:
+        vars_.insert(rng.randrange(0, len(vars_) + 1), (b'HTTP_CONNECTION', b'keep-alive'))
+    if proto == 'http':
+        hdrs = [(k[5:].replace(b'_', b'-').title() if rng.random() < 0.5 else k[5:].replace(b'_', b'-'), v) for k, v in vars_]
+        data = http_req(b'GET', script + b'/e' + (b'?q=1' if query else b''), b'HTTP/1.0', hdrs)
+        allv = fixed + vars_
+    elif proto == 'scgi':
+        allv = fixed + vars_
+        data = scgi_enc(allv)
+    else:
+        allv = fixed + vars_
+        cut = rng.choice([0, 0, len(allv) // 2])
+        blob = fcgi_pairs(allv)
+        recs = fcgi_rec(4, 1, blob) if not cut else fcgi_rec(4, 1, fcgi_pairs(allv[:cut])) + fcgi_rec(4, 1, fcgi_pairs(allv[cut:]))
+        data = fbegin(flags=1 if keep else 0) + recs + fcgi_rec(4, 1, b'') + fcgi_rec(5, 1, b'')
+    assert len(allv) == n, (proto, n, len(allv))
+    return data, env_spec(allv, looks, anyval=ENV_STD_HTTP if proto == 'http' else ())
+
+
+def padded_request(proto, total_len, keep, script=b'/sync'):
+    """a small annotated request (http / fcgi) of exactly total_len bytes (a variable HTTP_X_PAD of the needed length); fcgi: one PARAMS
+    record, so the record boundaries are at 16, len-16, len-8"""
+    looks = [b'HTTP_X_PAD', b'HTTP_X_NOT_SENT', b'SCRIPT_NAME']
+    xenv = (b'HTTP_X_ENV', b';'.join(looks))
+
+    def build(padlen):
+        pad = (b'HTTP_X_PAD', b'p' * padlen)
+        if proto == 'http':
+            vars_ = [xenv, pad] + ([(b'HTTP_CONNECTION', b'keep-alive')] if keep else [])
+            data = http_req(b'GET', script + b'/e', b'HTTP/1.0', [(k[5:].replace(b'_', b'-'), v) for k, v in vars_])
+            allv = [(k, b'') for k in ENV_STD_HTTP] + [(b'SERVER_PROTOCOL', b'HTTP/1.0'), (b'REQUEST_METHOD', b'GET'), (b'SCRIPT_NAME', script), (b'PATH_INFO', b'/e')] + vars_
+        else:
+            allv = [(b'SCRIPT_NAME', script), (b'CONTENT_LENGTH', b'0'), (b'REQUEST_METHOD', b'GET'), (b'PATH_INFO', b'/e'), xenv, pad]
+            data = fbegin(flags=1 if keep else 0) + fcgi_rec(4, 1, fcgi_pairs(allv)) + fcgi_rec(4, 1, b'') + fcgi_rec(5, 1, b'')
+        return data, allv
+    base, _ = build(200)
+    padlen = 200 + total_len - len(base)
+    if padlen < 128 or padlen > 1500:
+        return None
+    data, allv = build(padlen)
+    assert len(data) == total_len
+    return data, env_spec(allv, looks, anyval=ENV_STD_HTTP if proto == 'http' else ())
+
+
+def gen_env(ctx, cases):
+    """the open-addressing table behind connection::env_ (private/string_map.h: 64 slots, doubled when total_*2 >= size, i.e. at the 33rd,
+    65th, 129th add): for each front end every number of add() calls from 1 (http: 11) to 140 - every capacity and load-factor boundary is
+    crossed - with and without duplicated names, with names whose hashes collide, served by the synchronous (worker thread) and the
+    asynchronous (event-loop thread) echo application, which looks up present and absent names and walks the table; the probe request on a
+    fresh connection follows every case.  A table that can fill up completely makes get() of an absent name spin for ever in the
+    event-loop thread: the harness watchdog reports that case as stalled within seconds."""
+    rng = ctx.rng
+    for proto in ('http', 'scgi', 'fcgi'):
+        for n in range(1, 141):
+            for dups in (False, True):
+                script = b'/async' if (n + dups) % 2 else b'/sync'
+                r = env_request(proto, n, script, dups, rng, partner=(n % 3 != 0))
+                if r is None:
+                    continue
+                data, v = r
+                cases.append('%s %s H E X:1 %s' % (proto, S(data), v))
+        # boundaries again with the other application kind, several times in thorough
+        for rep in range(ctx.scale(1, 6)):
+            for n in (31, 32, 33, 34, 63, 64, 65, 66, 127, 128, 129, 130):
+                for script in (b'/sync', b'/async'):
+                    r = env_request(proto, n, script, rep % 2 == 1, rng, partner=rng.random() < 0.6)
+                    if r:
+                        cases.append('%s %s H E X:1 %s' % (proto, S(r[0]), r[1]))
+    # kept-alive connections: env_ and pool_ are cleared between the requests (reset_all): every reply must show exactly the variables
+    # of its own request, whatever the previous request left in the table (counts on both sides of every growth)
+    for proto in ('http', 'fcgi'):
+        for _ in range(ctx.scale(40, 400)):
+            k = rng.randint(2, 3)
+            reqs = []
+            for q in range(k):
+                n = rng.choice([rng.randint(12, 140), rng.choice([31, 32, 33, 34, 63, 64, 65, 66, 127, 128, 129])])
+                r = env_request(proto, n, rng.choice([b'/sync', b'/async']), rng.random() < 0.3, rng, partner=rng.random() < 0.6, keep=(q < k - 1 or rng.random() < 0.3))
+                if r:
+                    reqs.append(r)
+            if reqs:
+                cases.append('%s %s H E X:%d %s' % (proto, ' '.join(S(d) for d, _ in reqs), len(reqs), ' '.join(v for _, v in reqs)))
+    # the read path under well-formed traffic with an exact expectation (annotated requests): (a) one request in 2-4 pieces cut inside
+    # records / header lines / the netstring (FastCGI: the rest of a partly consumed read cache is moved to the front - memmove - before the
+    # next read; HTTP: parser state across reads; SCGI: 16-byte first read); (b) FastCGI: two requests of a kept connection in one piece plus
+    # the head of the next record; (c) long kept connections whose accumulated bytes cross the 16384-byte FastCGI read cache once and
+    # twice (and many 512-byte HTTP input buffers), one request per piece so that the cache drains completely in between, and the same with
+    # pieces cut at odd offsets: state that is not reset between requests shows after thousands of bytes only
+    for proto in ('http', 'scgi', 'fcgi'):
+        for _ in range(ctx.scale(40, 400)):
+            r = env_request(proto, rng.choice([12, 20, 33, 40, 64, 65, 100]), rng.choice([b'/sync', b'/async']), False, rng)
+            if not r:
+                continue
+            d, v = r
+            cuts = sorted(set(rng.randrange(1, len(d)) for _ in range(rng.randint(1, 3))))
+            pts = [0] + cuts + [len(d)]
+            cases.append('%s %s H E X:1 %s' % (proto, ' '.join(S(d[a:b]) for a, b in zip(pts, pts[1:])), v))
+    for _ in range(ctx.scale(30, 300)):
+        rs = [env_request('fcgi', rng.randint(6, 40), rng.choice([b'/sync', b'/async']), False, rng, keep=True) for _ in range(3)]
+        d = b''.join(x[0] for x in rs)
+        l01 = len(rs[0][0]) + len(rs[1][0])
+        cut = l01 + rng.choice([1, 4, 7, 8, 9, 12, rng.randrange(1, len(rs[2][0]))])
+        c2 = rng.choice([len(rs[0][0]) // 2, len(rs[0][0]) + 3, 5])
+        pts = sorted(set([0, c2 if rng.random() < 0.5 else 0, min(cut, len(d) - 1), len(d)]))
+        cases.append('fcgi %s H E X:3 %s' % (' '.join(S(d[a:b]) for a, b in zip(pts, pts[1:])), ' '.join(x[1] for x in rs)))
+    for proto in ('fcgi', 'http'):
+        for target in [16384, 17000, 33000] + [rng.randint(16000, 40000) for _ in range(ctx.scale(2, 12))]:
+            for aligned in (True, False):
+                reqs = []
+                tot = 0
+                while tot < target and len(reqs) < 400:
+                    r = env_request(proto, rng.randint(14, 24), rng.choice([b'/sync', b'/async']), False, rng, keep=True)
+                    if r:
+                        reqs.append(r)
+                        tot += len(r[0])
+                reqs.append(env_request(proto, 15, b'/sync', False, rng, keep=False))
+                if aligned:
+                    segs = [S(d) for d, _ in reqs]
+                else:
+                    d = b''.join(x[0] for x in reqs)
+                    pts = [0]
+                    while pts[-1] < len(d):
+                        pts.append(min(len(d), pts[-1] + rng.choice([1, 7, 100, 511, 512, 513, 1000, 3000])))
+                    segs = [S(d[a:b]) for a, b in zip(pts, pts[1:])]
+                cases.append('%s %s H E X:%d %s' % (proto, ' '.join(segs), len(reqs), ' '.join(v for _, v in reqs)))
+    # (d) capacity of the read buffers hit EXACTLY at a record / request boundary: FastCGI keeps a 16384-byte read cache; a kept connection
+    # (one request per piece) is padded so that byte 16384 of the connection is the last byte of a request / of the BEGIN_REQUEST record /
+    # of the PARAMS record / of the empty PARAMS record of the next request; HTTP: pipelined kept-alive requests in one piece with the
+    # first (or the first two) ending exactly at, one before and one after a multiple of the 512-byte input buffer
+    for capacity in (16384, 32768):
+        for where in ('end', 'begin', 'params', 'params-end'):
+            for rep in range(ctx.scale(1, 4)):
+                reqs = []
+                tot = 0
+                while tot < capacity - 2600:
+                    r = padded_request('fcgi', rng.randint(420, 900), True, rng.choice([b'/sync', b'/async']))
+                    reqs.append(r)
+                    tot += len(r[0])
+                ylen = rng.randint(420, 700)
+                off = {'end': 0, 'begin': 16, 'params': ylen - 16, 'params-end': ylen - 8}[where]
+                xlen = capacity - off - tot
+                x1 = padded_request('fcgi', xlen // 2, True)
+                x2 = padded_request('fcgi', xlen - xlen // 2, True)
+                y = padded_request('fcgi', ylen, True, b'/async')
+                z = padded_request('fcgi', 450, False)
+                if not (x1 and x2 and y and z):
+                    continue
+                reqs += [x1, x2, y, z]
+                assert sum(len(r[0]) for r in reqs[:-2]) + off == capacity
+                if rep % 2 == 0:
+                    segs = [S(d) for d, _ in reqs]
+                else:        # the boundary record delivered on its own as well
+                    segs = [S(d) for d, _ in reqs[:-2]] + ([S(y[0][:off]), S(y[0][off:])] if off else [S(y[0])]) + [S(z[0])]
+                cases.append('fcgi %s H E X:%d %s' % (' '.join(segs), len(reqs), ' '.join(v for _, v in reqs)))
+    for mult in (1, 2, 3, 4, 32):
+        for delta in (-1, 0, 1):
+            for two in (False, True):
+                l1 = 512 * mult + delta
+                if two:
+                    a = padded_request('http', 400, True)
+                    b = padded_request('http', l1 - 400, True) if l1 - 400 >= 380 else None
+                    first = [a, b]
+                else:
+                    first = [padded_request('http', l1, True)] if l1 <= 1700 else [None]
+                if any(x is None for x in first):
+                    continue
+                reqs = first + [padded_request('http', 450, True, b'/async'), padded_request('http', 430, False)]
+                d = b''.join(x[0] for x in reqs)
+                cases.append('http %s H E X:%d %s' % (S(d), len(reqs), ' '.join(v for _, v in reqs)))
+    # names whose 32-bit PJW hash equals that of a name the framework looks up (same probe chain, told apart by strcmp only):
+    # SCRIPT_NALU ~ SCRIPT_NAME, CONTENT_LENGSX ~ CONTENT_LENGTH, CONTENT_TYOU ~ CONTENT_TYPE; sent BEFORE / INSTEAD of the real one
+    coll = [(b'SCRIPT_NALU', b'/async'), (b'CONTENT_LENGSX', b'5'), (b'CONTENT_LENGSX', b'-1'), (b'CONTENT_TYOU', b'multipart/form-data; boundary=x'), (b'CONTENT_LENGSX', b'99999')]
+    for proto in ('scgi', 'fcgi'):
+        for ck, cv in coll:
+            for real_present in (True, False):
+                for nfill in (0, 40):
+                    allv = [(ck, cv)] + [(nm, b'v') for nm in filler_names(nfill, True)]
+                    std = [(b'SCRIPT_NAME', b'/sync'), (b'CONTENT_LENGTH', b'0'), (b'REQUEST_METHOD', b'GET'), (b'PATH_INFO', b'/c')]
+                    allv += [kv for kv in std if real_present or kv[0][:9] != ck[:9]]
+                    looks = [ck, b'SCRIPT_NAME', b'CONTENT_LENGTH', b'CONTENT_TYPE']
+                    allv.append((b'HTTP_X_ENV', b';'.join(looks)))
+                    data = scgi_enc(allv) if proto == 'scgi' else fbegin() + fcgi_rec(4, 1, fcgi_pairs(allv)) + fcgi_rec(4, 1, b'') + fcgi_rec(5, 1, b'')
+                    served = any(k == b'SCRIPT_NAME' for k, _ in allv)
+                    cases.append('%s %s H E X:1 %s' % (proto, S(data), env_spec(allv, looks) if served else ''))
+    # which of two adds of one name wins decides the routing / the declared length: first add below 33 variables, reversed by every
+    # growth of the table (model: SMapDefs.v spec_run; no annotation - the correspondence with the model decides)
+    for proto in ('scgi', 'fcgi'):
+        ns = [2, 3, 5, 16, 30, 31, 32, 33, 34, 35, 40, 62, 63, 64, 65, 66, 67, 100, 126, 127, 128, 129, 130, 131, 140]
+        if ctx.tier == 'quick':
+            ns = [2, 3, 16, 31, 32, 33, 34, 40, 63, 64, 65, 66, 100, 128, 129, 130]
+        for n in ns:
+            combos = {(0, 1), (0, n - 1), (n - 2, n - 1), (0, n // 2)}
+            for _ in range(ctx.scale(1, 8)):
+                i = rng.randrange(0, n - 1)
+                combos.add((i, rng.randrange(i + 1, n)))
+            for i, j in sorted(combos):
+                if not (0 <= i < j < n):
+                    continue
+                for kind in (0, 1):
+                    if kind == 0:
+                        a, b = (b'SCRIPT_NAME', b'/sync'), (b'SCRIPT_NAME', b'/async')
+                        rest = [(b'CONTENT_LENGTH', b'0')]
+                    else:
+                        a, b = (b'CONTENT_LENGTH', b'0'), (b'CONTENT_LENGTH', b'-1')
+                        rest = [(b'SCRIPT_NAME', b'/sync')]
+                    if rng.random() < 0.5:
+                        a, b = (a[0], b[1]), (b[0], a[1])
+                    if n < 2 + len(rest):
+                        continue
+                    fill = [(nm, b'v') for nm in filler_names(n - 2 - len(rest), True)]
+                    allv = fill[:]
+                    for q in rest:
+                        allv.insert(rng.randrange(0, len(allv) + 1), q)
+                    allv.insert(min(i, len(allv)), a)
+                    allv.insert(min(j, len(allv)), b)
+                    data = scgi_enc(allv) if proto == 'scgi' else fbegin() + fcgi_rec(4, 1, fcgi_pairs(allv)) + fcgi_rec(4, 1, b'') + fcgi_rec(5, 1, b'')
+                    cases.append('%s %s H E X:1' % (proto, S(data)))
+
+
+def gen_smap(ctx):
+    """operation sequences for the direct string_map / string_pool harness (harness/C02_smap.cpp) and the extracted model"""
+    rng = ctx.rng
+    out = []
+
+    def A(k, v):
+        return 'a:%s:%s' % (hx(k), hx(v))
+
+    def G(k):
+        return 'g:' + hx(k)
+    # 1. every count 0..300 of distinct names: state, look-ups of present and absent names (incl. absent names with a present hash), walk
+    for n in (list(range(0, 141)) + [191, 192, 193, 255, 256, 257, 258, 300] if ctx.tier == 'quick' else list(range(0, 301)) + [511, 512, 513, 514, 600]):
+        names = filler_names(n, n % 2 == 0)
+        ops = [A(k, b'v%d' % i) for i, k in enumerate(names)]
+        ops += ['d'] + [G(k) for k in (names[:2] + names[-2:] + [b'HTTP_X_BA%d' % n, b'HTTP_X_AQ%d' % (n + 7), b'nope', b''])]
+        if n <= 140 or n % 16 in (0, 1, 15):
+            ops.append('i')
+        out.append('smap ' + ' '.join(ops))
+    # 2. absent look-up after EVERY add up to 140 adds (exactly capacity/2 and capacity adds included), with state dumps at the boundaries
+    for variant in range(ctx.scale(3, 12)):
+        ops = []
+        names = [bytes(rng.choice(b'ABQXY_') for _ in range(rng.randint(1, 6))) + b'%d' % i for i in range(140)] if variant else filler_names(140, True)
+        for i, k in enumerate(names):
+            ops.append(A(k, b'%d' % i))
+            ops.append(G(b'ABSENT' + (b'%d' % i if variant % 2 else b'')))
+            if i + 1 in (31, 32, 33, 63, 64, 65, 127, 128, 129):
+                ops += ['d', G(names[0]), G(k)]
+        ops.append('i')
+        out.append('smap ' + ' '.join(ops))
+    # 3. duplicates around every growth: which add wins
+    for n in list(range(2, 70)) + [100, 127, 128, 129, 130, 200, 257]:
+        for _ in range(ctx.scale(1, 4)):
+            names = filler_names(n, True)
+            i = rng.randrange(0, n - 1)
+            j = rng.randrange(i + 1, n)
+            names[j] = names[i]
+            if n > 4 and rng.random() < 0.5:
+                names[rng.randrange(0, n)] = names[i]
+            ops = [A(k, b'%d' % q) for q, k in enumerate(names)] + [G(names[i]), 'd', 'i']
+            out.append('smap ' + ' '.join(ops))
+    # 4. clear between requests: table and pool are reset (pool: page boundaries, oversized strings), then refilled to other counts
+    for _ in range(ctx.scale(60, 600)):
+        ops = []
+        for rnd in range(rng.randint(2, 4)):
+            n = rng.choice([0, 1, 31, 32, 33, 63, 64, 65, rng.randint(0, 140)])
+            big = rng.random() < 0.3
+            for i in range(n):
+                v = bytes(rng.choice(b'abc') for _ in range(rng.choice([0, 1, 100, 1023, 1024, 1025, 2047, 2048, 3000]))) if big and rng.random() < 0.2 else b'%d.%d' % (rnd, i)
+                ops.append(A(b'K%d' % (i if rng.random() < 0.9 else rng.randrange(0, n)), v))
+            ops += [G(b'K0'), G(b'K%d' % max(0, n - 1)), G(b'K%d' % n), 'd']
+            if rng.random() < 0.3:
+                ops.append('i')
+            ops.append('c')
+            ops += [G(b'K0'), 'd', 'i']
+        out.append('smap ' + ' '.join(ops))
+    # 6. the pool behind the table (trace on): where every key / value is put - page boundaries (a string with its NUL fills the page exactly /
+    # by one byte not), strings of 1023..1025 bytes (own page iff (len+1)*2 > 2048), oversized strings between small ones, clear after them
+    for _ in range(ctx.scale(80, 800)):
+        ops = ['T', 'p']
+        for rnd in range(rng.randint(1, 3)):
+            for i in range(rng.randint(1, 25)):
+                ln = rng.choice([0, 1, 5, 30, 200, 500, 1021, 1022, 1023, 1024, 1025, 2046, 2047, 2048, 3000, rng.randint(0, 1100)])
+                kl = rng.choice([1, 3, 8, 8, 20, 1023, 1024])
+                ops.append(A(bytes(rng.choice(b'KLMN') for _ in range(kl)) + b'%d' % i, bytes(rng.choice(b'xyz') for _ in range(ln))))
+                if rng.random() < 0.3:
+                    ops.append('p')
+            ops += ['p', 'd', 'c', 'p']
+        out.append('smap ' + ' '.join(ops))
+    for fill in range(2030, 2050):       # exact fill of the first page by two strings, then one more byte
+        a = fill // 2
+        out.append('smap T ' + ' '.join([A(b'k', b'a' * a), 'p', A(b'l', b'b' * (fill - a - 8)), 'p', A(b'm', b''), 'p', 'i', 'c', 'p']))
+    # 5. random op sequences over a small alphabet (many equal hashes modulo the size; full-hash collisions AQ/BA), NUL inside, empty key
+    alpha = [b'', b'A', b'AQ', b'BA', b'AQ1', b'BA1', b'Q', b'a\0b', b'CONTENT_LENGTH', b'CONTENT_LENGSX'] + [bytes([64 + i]) for i in range(1, 20)] + [b'%c%c' % (65 + i // 8, 65 + i % 8) for i in range(64)]
+    for _ in range(ctx.scale(300, 6000)):
+        ops = []
+        for _ in range(rng.randint(1, 120)):
+            k = rng.random()
+            if k < 0.6:
+                ops.append(A(rng.choice(alpha), b'%d' % rng.randrange(1000)))
+            elif k < 0.9:
+                ops.append(G(rng.choice(alpha)))
+            elif k < 0.93:
+                ops.append('c')
+            elif k < 0.97:
+                ops.append('d')
+            else:
+                ops.append('i')
+        ops += ['d', 'i']
+        out.append('smap ' + ' '.join(ops))
+    return out
+
+
+def smap_oracle(case, out):
+    """property of the table evaluated on the implementation output alone (independent re-computation, no model): a look-up never
+    spins, the load factor is at most 1/2 and the occupied slots equal the adds since the last clear, a name added once is found with its
+    value, a name added several times with one of its values, a name not added is absent, the walk lists every add exactly once
+    (its order - reverse insertion order into the current table, which every growth reverses - is compared with the model only)"""
+    if 'HANG' in out:
+        return ('string-map-loop-does-not-terminate', 'a probe loop of string_map (get / insert) did not end within 1 s of CPU time: ' + out[-200:])
+    if out.startswith('<crash'):
+        return ('string-map-crash', out[:1500])
+    adds = []
+    res = out.split()
+    ri = 0
+    trace = False
+    live = {}      # page -> [(offset, size)] of the strings stored since the last clear
+    for t in case.split()[1:]:
+        if t == 'c':
+            adds = []
+            live = {}
+            continue
+        if t == 'T':
+            trace = True
+            continue
+        if t.startswith('a:'):
+            _, k, v = t.split(':')
+            adds.append((unhx(k).split(b'\0')[0], unhx(v).split(b'\0')[0]))
+            if trace:
+                if ri >= len(res) or not res[ri].startswith('@'):
+                    return ('string-map-output', 'missing pool trace for op %s' % t[:40])
+                for h, st in zip(res[ri][1:].split('/'), adds[-1]):
+                    pg, _, off = h.partition('.')
+                    pg, off, size = int(pg), int(off), len(st) + 1
+                    if pg < 0:
+                        return ('string-pool-outside-pages', 'a string of %d bytes was put outside every page of the pool' % size)
+                    if (size * 2 > 2048 and off != 0) or (size * 2 <= 2048 and off + size > 2048):
+                        return ('string-pool-out-of-page', 'a string of %d bytes (with NUL) was put at offset %d of page %d (page size 2048)' % (size, off, pg))
+                    for o2, s2 in live.get(pg, []):
+                        if off < o2 + s2 and o2 < off + size:
+                            return ('string-pool-overlap', 'two live strings overlap in page %d: [%d,%d) and [%d,%d)' % (pg, o2, o2 + s2, off, off + size))
+                    live.setdefault(pg, []).append((off, size))
+                ri += 1
+            continue
+        if ri >= len(res):
+            return ('string-map-output', 'missing output for op %s' % t)
+        o = res[ri]
+        ri += 1
+        if t == 'p':
+            npages, cur, free = [int(x) for x in o[1:].split(',')]
+            if npages < 1 or cur < 0 or not 0 <= free <= 2048 or (not live and not adds and (npages, cur, free) != (1, 0, 2048) and trace and False):
+                return ('string-pool-state', 'pool state %s' % o)
+            if not adds and (npages, free) != (1, 2048):
+                return ('string-pool-not-reset', 'no string stored since the last clear but the pool has %d pages and %d free bytes' % (npages, free))
+        elif t == 'd':
+            size, total, occ = [int(x) for x in o[1:].split(',')]
+            if total != len(adds) or occ != len(adds):
+                return ('string-map-count', 'after %d adds: total_ = %d, occupied slots = %d' % (len(adds), total, occ))
+            if total * 2 > size or size < 64:
+                return ('string-map-load-factor', 'table of %d slots holds %d entries (more than half full: a full table makes look-ups of absent names spin)' % (size, total))
+        elif t == 'i':
+            items = [x for x in o[1:].split(',') if x]
+            got = []
+            for it in items:
+                pos, _, kv = it.partition(':')
+                if kv == 'EMPTY' or 'CYCLE' in it:
+                    return ('string-map-chain', 'the walk begin()..end() meets an empty slot or does not end: ' + it)
+                k, _, v = kv.partition('=')
+                got.append((unhx(k), unhx(v)))
+            if sorted(got) != sorted(adds):
+                return ('string-map-walk', 'the walk begin()..end() does not list every add since the last clear exactly once: %d entries for %d adds' % (len(got), len(adds)))
+        elif t.startswith('g:'):
+            k = unhx(t[2:]).split(b'\0')[0]
+            vals = [v for kk, v in adds if kk == k]
+            if not vals:
+                if o != '~':
+                    return ('string-map-get-absent', 'get(%r) of a name that was not added returned %s' % (k, o))
+            elif o == '~' or unhx(o[1:]) not in vals:
+                return ('string-map-get-present', 'get(%r) returned %s; values added for it: %r' % (k, o, vals[:4]))
+    return None
+
+
 def gen_cases(ctx):
     cases = []
     gen_http(ctx, cases)
@@ -863,6 +1521,8 @@ def gen_cases(ctx):
     gen_fcgi(ctx, cases)
     gen_interleaved(ctx, cases)
     gen_resegmented(ctx, cases)
+    gen_env(ctx, cases)        # after the re-segmentation pool is drawn: these are well-formed and large
+    gen_many(ctx, cases)
     return [' '.join(c.split()) for c in cases]
 
 
@@ -874,7 +1534,7 @@ def run_impl_slice(exe, cases, env):
     i = 0
     restarts = 0
     same_spot = 0
-    setup = ['probe %s %s' % (p, hx(b)) for p, b in PROBE.items()]
+    setup = ['probe %s %s' % (p, hx(b)) for p, b in PROBE.items()] + ['probe-body ' + hx(PROBE_BODY)]
     while i < len(cases):
         part = cases[i:]
         try:
@@ -901,6 +1561,10 @@ def run_impl_slice(exe, cases, env):
         outs += good
         i += len(good)
         if len(good) == len(part) and rc == 0:
+            break
+        if good and good[-1].endswith(' restart=1') and i < len(cases):
+            continue     # the harness ended itself after a case that timed out or stalled the event loop (that case has its line)
+        if good and good[-1].endswith(' restart=1'):
             break
         if i < len(cases):
             sig = ' '.join(threw) + ' ' + ' | '.join(l.strip() for l in se.split('\n') if re.search(r'ERROR|runtime error|#[0-9] |SUMMARY|READ of|WRITE of', l))[:1800]
@@ -933,6 +1597,95 @@ def run_impl(exe, cases, env, jobs):
     return out, extra, jobs
 
 
+def run_smap_impl(exe, cases, env):
+    """direct harness: one line per case; a HANG line ends the process (watchdog), the rest of the cases goes to a fresh process"""
+    outs = []
+    i = 0
+    restarts = 0
+    while i < len(cases):
+        try:
+            p = subprocess.run([exe], input=('\n'.join(cases[i:]) + '\n').encode(), capture_output=True, env=env, timeout=600)
+            so, se, rc = p.stdout.decode(errors='replace'), p.stderr.decode(errors='replace'), p.returncode
+        except subprocess.TimeoutExpired as e:
+            so, se, rc = (e.stdout or b'').decode(errors='replace'), 'harness timed out', -9
+        lines = so.split('\n')
+        if lines and lines[-1] == '':
+            lines.pop()
+        lines = lines[:len(cases) - i]
+        outs += lines
+        i += len(lines)
+        if i >= len(cases):
+            break
+        if not (lines and lines[-1].endswith('HANG')):
+            sig = ' | '.join(l.strip() for l in se.split('\n') if re.search(r'ERROR|runtime error|#[0-9] |SUMMARY|READ of|WRITE of', l))[:1500]
+            outs.append('<crash rc=%s> %s' % (rc, sig))
+            i += 1
+        restarts += 1
+        if restarts > 40:
+            outs += ['<not-run>'] * (len(cases) - i)
+            break
+    return outs
+
+
+def smap_stage(ctx, mexe, env):
+    """private/string_map.h driven directly (string_pool + string_map, ASan+UBSan), compared with the extracted model of SMapDefs.v
+    (slot positions, chain order, sizes, every look-up; the model driver also evaluates the closed form spec_get proved equal to
+    smap_get) and judged by smap_oracle on the implementation output alone"""
+    cov = ctx.coverage
+    exe, err = vlib.build_harness('C02_smap', ['C02_smap.cpp'], asan=True, link=False)
+    if not exe:
+        ctx.broke('string_map harness build failed', err)
+        return
+    cases = [c for c in (ctx.replay_cases if ctx.replay_cases is not None else vlib.corpus_cases('C02') + gen_smap(ctx)) if c.startswith('smap ')]
+    if not cases:
+        return
+    t0 = time.time()
+    jobs = 4
+    parts = [cases[k::jobs] for k in range(jobs)]
+    with concurrent.futures.ThreadPoolExecutor(jobs) as ex:
+        rs = list(ex.map(lambda part: run_smap_impl(exe, part, env), parts))
+    out_i = [None] * len(cases)
+    for k, (part, r) in enumerate(zip(parts, rs)):
+        for j in range(len(part)):
+            out_i[k + j * jobs] = r[j] if j < len(r) else '<not-run>'
+    out_m = None
+    if mexe:
+        rc_m, out_m, err_m = vlib.run_lines_parallel(mexe, cases, jobs=4)
+        if len(out_m) != len(cases):
+            ctx.broke('model driver produced %d lines for %d string_map cases' % (len(out_m), len(cases)), err_m[-1500:])
+            out_m = None
+    ndiff = 0
+    nfail = {}
+    nops = 0
+    for i, c in enumerate(cases):
+        a = out_i[i]
+        nops += c.count(' ')
+        if a == '<not-run>':
+            ctx.broke('string_map case not run', c[:200])
+            continue
+        r = smap_oracle(c, a)
+        if r:
+            nfail[r[0]] = nfail.get(r[0], 0) + 1
+            ctx.fail(r[0], r[1] + '\n  case: %s\n  impl: %s' % (c[:300], a[-300:]), c)
+        elif out_m is not None:
+            if 'SPEC' in out_m[i] or 'HANG' in out_m[i] or 'MODEL-EXN' in out_m[i]:
+                ctx.broke('extracted string_map model: smap_get differs from spec_get or reports a non-terminating loop although Props.v proves neither happens',
+                          'case: %s\nmodel: %s' % (c[:600], out_m[i][:600]))
+            elif a.strip() != out_m[i].strip():
+                ndiff += 1
+                if ndiff <= 3:
+                    k = next((j for j, (x, y) in enumerate(zip(a.split(), out_m[i].split())) if x != y), -1)
+                    ctx.broke('correspondence string_map model vs implementation: differ on case',
+                              'case:  %s\nfirst differing output token #%d: impl %s  model %s' % (c[:600], k, a.split()[k][:200] if k >= 0 else a[-100:], out_m[i].split()[k][:200] if k >= 0 else out_m[i][-100:]))
+    cov['string_map_cases'] = len(cases)
+    cov['string_map_operations'] = nops
+    cov['string_map_correspondence_differences'] = ndiff
+    cov['string_map_oracle_failures_by_key'] = nfail
+    cov['string_map_wall_s'] = round(time.time() - t0, 2)
+    hist = cov.setdefault('distribution', {})
+    hist['smap:cases'] = len(cases)
+
+
 def classify(case, a):
     proto = case.split()[0]
     left = a.split(' | ')[0].split()
@@ -947,8 +1700,9 @@ def run(ctx):
     ctx.proof(res)
     ctx.coverage['trusted_base'] = [
         'Coq 8.16.1 kernel, vm_compute',
-        'tools/cxx2v.py + clang JSON AST (separator from private/http_protocol.h)',
-        'extraction: ExtrOcamlBasic only, OCaml',
+        'tools/cxx2v.py + clang JSON AST (separator from private/http_protocol.h; string_map / string_hash leafs lifted textually by checks/C02.py:smap_leaf_tu)',
+        'harness/C02_smap.cpp (direct driver of private/string_map.h, SIGVTALRM watchdog)',
+        'extraction: ExtrOcamlBasic, OCaml; one Extract Constant: env_map = env_map_build behind a one-entry cache keyed by physical identity of the argument (coq/C02/Extract.v)',
         'harness/C02_service.cpp (in-process cppcms::service, accept()/close() interposition, echo + upload-filter applications), checks/fe_common.py encoders',
         'ASan+UBSan (gcc) as detector of memory-unsafe operations of the compiled library on the explored inputs',
         'hand model coq/C02/Defs.v of http_parser.h / http_api.cpp / scgi_api.cpp / fastcgi_api.cpp / cgi_api.cpp / http_request.cpp / http_context.cpp error paths']
@@ -956,7 +1710,7 @@ def run(ctx):
         'kernel delivers socket bytes in order; a send() of at most 16 KiB on loopback arrives as one readable unit',
         'the server reads a segment before the next one is sent (the harness waits for FIONREAD==0 on the accepted socket)',
         'an HTTP connection reset by the peer may be closed before any application callback (getpeername fails) or processed as the model says: both accepted',
-        'fewer than 33 CGI variables whenever a variable name is duplicated (string_map keeps the first; a rehash may reorder)',
+        'the harness watchdog calls an event loop stalled when a posted marker has not run 8 s after the case (CPU-starved loop threads are not expected to wait that long)',
         'FastCGI name-value bodies are shorter than 2^32 bytes (theorem hypothesis; the code caps them at 16384+65535+255)',
         'configuration of the harness service: content_length_limit 2 KB, multipart_form_data_limit 4 KB, input_buffer_size 512']
     ok, err = vlib.build_repo(asan=True)
@@ -970,7 +1724,10 @@ def run(ctx):
     mexe, err = vlib.build_model('C02', 'C02_driver.ml', 'c02m')
     if not mexe:
         ctx.broke('model extraction/build failed', err)
+    for pr in SMAP_TU_PROBLEMS:
+        ctx.broke('tie to private/string_map.h broken', pr)
     cases = ctx.replay_cases if ctx.replay_cases is not None else vlib.corpus_cases('C02') + gen_cases(ctx)
+    cases = [c for c in cases if not c.startswith('smap ')]
     ctx.coverage['rule'] = (
         'case = protocol + byte segments sent on one connection + how the peer ends it (half-close then read to EOF, or abortive close) + probes '
         'on other connections (always one after the case). Generated: truncation/reset at every offset of valid requests; declared-length values '
@@ -980,7 +1737,17 @@ def run(ctx):
         'framing; keep-alive / keep_conn sequences ending in a bad request; string-pool page boundaries; SCGI header blocks whose last string is not '
         'NUL-terminated and netstrings of total size 15-18; FastCGI management prefixes with content-less GET_VALUES records; abortive close right after '
         'a complete HTTP header block / request (timing window of getpeername); re-segmentation of the generated streams into 2-5 separately '
-        'consumed pieces at record / header / block boundaries; random mutations and random bytes. '
+        'consumed pieces at record / header / block boundaries; random mutations and random bytes; connection::env_ (string_map): for each front end '
+        'well-formed requests making every number of add() calls from 1 (http 11) to 140, with and without duplicated names, names with equal 32-bit '
+        'hashes, served by the synchronous and the asynchronous echo application which looks up present and absent names and walks the table (oracle: '
+        'exact environment), duplicates of SCRIPT_NAME / CONTENT_LENGTH at chosen positions around every growth (which add wins decides the reply), '
+        'names colliding with SCRIPT_NAME / CONTENT_LENGTH / CONTENT_TYPE; a per-case watchdog reports a stuck event loop as event-loop-stalled; '
+        'annotated requests delivered in pieces, long kept connections crossing the 16384-byte FastCGI read cache, connections padded so that the cache '
+        'capacity is hit exactly at a record boundary, pipelined HTTP requests ending at multiples of the input buffer; 1..300 well-formed requests on '
+        'connections open at the same time (both sides of the 128-event poll array) while a malformed connection is half-way. '
+        'Second stage: private/string_map.h driven directly (string_pool + string_map, ASan+UBSan) by operation sequences: every count 0..300, absent '
+        'look-up after every add, duplicates around every growth, clear and refill, random sequences over colliding alphabets; compared with the extracted '
+        'model token by token (slot indices, chain order, sizes) and judged by an independent oracle (load factor, counts, look-ups, walk, per-case CPU watchdog). '
         'Non-trivial = the stream is not a well-formed request sequence answered 200 throughout, i.e. at least one error reply, silent close, management '
         'reply or reset occurs; distinct = distinct case lines.')
     os.makedirs(ctx.workdir, exist_ok=True)
@@ -988,6 +1755,17 @@ def run(ctx):
     env['FE_WORKDIR'] = ctx.workdir
     env['ASAN_OPTIONS'] = 'detect_leaks=0:abort_on_error=0:allocator_may_return_null=1'
     env['UBSAN_OPTIONS'] = 'print_stacktrace=1'
+    import threading
+    smap_err = []
+
+    def smap_bg():
+        try:
+            smap_stage(ctx, mexe, env)
+        except Exception as e:      # fail closed
+            import traceback
+            smap_err.append(traceback.format_exc())
+    smap_thread = threading.Thread(target=smap_bg)
+    smap_thread.start()      # the direct string_map stage runs beside the service stage
     t0 = time.time()
     out_i, extra, njobs = run_impl(exe, cases, env, jobs=ctx.scale(8, 10))
     t1 = time.time()
@@ -1070,5 +1848,8 @@ def run(ctx):
     cov['correspondence_compared'] = ncmp
     cov['correspondence_skipped_unmodelled_or_unsynchronised'] = nskip
     step = max(1, len(cases) // 5)
+    smap_thread.join()
+    for e in smap_err:
+        ctx.broke('string_map stage raised an exception', e[-2000:])
     cov['samples'] = [{'case': cases[i][:300], 'impl': canon_impl(cases[i], out_i[i])[:200], 'model': (out_m[i][:200] if out_m else None)}
                       for i in range(0, len(cases), step)][:6]
